@@ -5,6 +5,7 @@ import (
 	"errors"
 	"fmt"
 	"io"
+	gofs "io/fs"
 	"os"
 	"path/filepath"
 	"strings"
@@ -26,7 +27,7 @@ import (
 
 type faultPlan struct {
 	Tree  int    `json:"tree"`
-	Class string `json:"class"` // ssend srecv rsend rrecv cancelS cancelR walk read hasher notify sigkill fanout
+	Class string `json:"class"` // ssend srecv rsend rrecv cancelS cancelR walk read hasher notify sigkill vanish fanout
 	Mode  string `json:"mode,omitempty"`
 	K     int    `json:"k"`
 	J     int    `json:"j,omitempty"`
@@ -107,6 +108,16 @@ func c04Plans(tier string) []faultPlan {
 		for _, pl := range out[first:] {
 			pl.KeepCtx = true
 			out = append(out, pl)
+		}
+	}
+	// an entry that vanishes between the directory listing and its lstat
+	// (bare directory FS and the same below a filter FS), into the ordinary
+	// prior destination and into one that is in sync
+	for t := 0; t < trees; t++ {
+		for k := 0; k < 14; k++ {
+			for _, m := range []string{"bare", "filter"} {
+				out = append(out, mkPlan(t, "vanish", m, k, 0), mkPlan(1000+t, "vanish", m, k, 0))
+			}
 		}
 	}
 	for i := 0; i < fan; i++ {
@@ -194,7 +205,7 @@ func init() {
 	core.Register(&core.Prop{
 		ID:    "C04",
 		Level: "fault_enumeration",
-		Rule: "for a fixed 12-entry tree (and, in the thorough tier, 11 mutated variants) EVERY operation index k of every fault class is enumerated: error (once / sticky) or EOF at the k-th SendMsg/RecvMsg of either endpoint, cancellation of either context at global stream operation k, walk error at entry k, read error after j in {0,1,mid-chunk,chunk boundary,last byte} bytes of file k, hasher error at call k, notify error at call k, SIGKILL of a receiver process (real pipes, util.NewProtoStream) after k packets; plus sampled faults on a 300-file fan-out whose DATA packets are gated so that >132 requests are pending when the fault hits. Real Send and Receive run with separate contexts; termination is decided by the quiescence detector (teardown by the harness is allowed once, quiescence after it is a violation), leaks by goroutine sampling, false success by the C01 oracle and the packet log, recovery by a follow-up clean transfer. " +
+		Rule: "for a fixed 12-entry tree (and, in the thorough tier, 11 mutated variants) EVERY operation index k of every fault class is enumerated: error (once / sticky) or EOF at the k-th SendMsg/RecvMsg of either endpoint, cancellation of either context at global stream operation k, walk error at entry k, entry k removed from the disk at the moment the walk reports it (its lstat fails; the source view of that run is the directory without it), read error after j in {0,1,mid-chunk,chunk boundary,last byte} bytes of file k, hasher error at call k, notify error at call k, SIGKILL of a receiver process (real pipes, util.NewProtoStream) after k packets; plus sampled faults on a 300-file fan-out whose DATA packets are gated so that >132 requests are pending when the fault hits. Real Send and Receive run with separate contexts; termination is decided by the quiescence detector (teardown by the harness is allowed once, quiescence after it is a violation), leaks by goroutine sampling, false success by the C01 oracle and the packet log, recovery by a follow-up clean transfer. " +
 			"non-trivial = the addressed operation was reached (fault fired); distinct by fault plan; plans whose operation index exceeds the run are reported as not fired",
 		Assumptions:   []string{"root", "Open failures map to empty content by design and are not injected", "kernel-level disk faults on the receiving side are out of scope", "teardown = both directions fail and both contexts are cancelled (what a transport does when the connection breaks)"},
 		Cases:         func(tier string) int { return len(c04Plans(tier)) },
@@ -231,6 +242,9 @@ func c04Run(c *core.Ctx) *core.Result {
 	}
 	if plan.Class == "sigkill" {
 		return c04Sigkill(c, r, plan, src, dest)
+	}
+	if plan.Class == "vanish" {
+		return c04Vanish(c, r, plan, src, dest)
 	}
 	obs := &c04Obs{}
 	sf := newSynthFS(src)
@@ -342,12 +356,74 @@ func c04Run(c *core.Ctx) *core.Result {
 			}
 		}
 	}
-	c04Judge(c, r, plan, res, src, dest, obs.fired.Load())
+	c04Judge(c, r, plan, res, src, nil, dest, obs.fired.Load())
 	return r
 }
 
-// c04Judge applies the oracles (a)-(e) to one fault run.
-func c04Judge(c *core.Ctx, r *core.Result, plan faultPlan, res *syncRes, src *tree.Tree, dest string, fired bool) {
+// vanishFS removes the k-th entry of the walk from the disk at the moment the
+// directory FS reports it: the entry was listed, its lazy lstat fails.
+type vanishFS struct {
+	fsutil.FS
+	root    string
+	k       int
+	removed string
+}
+
+func (v *vanishFS) Walk(ctx context.Context, target string, fn gofs.WalkDirFunc) error {
+	n := 0
+	return v.FS.Walk(ctx, target, func(p string, d gofs.DirEntry, err error) error {
+		if n == v.k && v.removed == "" {
+			if os.RemoveAll(filepath.Join(v.root, p)) == nil {
+				v.removed = p
+			}
+		}
+		n++
+		return fn(p, d, err)
+	})
+}
+
+func c04Vanish(c *core.Ctx, r *core.Result, plan faultPlan, src *tree.Tree, dest string) *core.Result {
+	sd := filepath.Join(c.Dir, "src-vanish")
+	if os.Mkdir(sd, 0755) != nil || tree.Materialise(sd, src) != nil {
+		r.Inconclusive = "materialise source"
+		return r
+	}
+	base, err := fsutil.NewFS(sd)
+	if err != nil {
+		r.Inconclusive = "NewFS: " + err.Error()
+		return r
+	}
+	vf := &vanishFS{FS: base, root: sd, k: plan.K}
+	var srcFS fsutil.FS = vf
+	if plan.Mode == "filter" {
+		if srcFS, err = fsutil.NewFilterFS(vf, &fsutil.FilterOpt{}); err != nil {
+			r.Inconclusive = "NewFilterFS: " + err.Error()
+			return r
+		}
+	}
+	res := runSync(syncOpt{Cfg: wire.Config{Cap: []int{0, 1, 8}[plan.K%3]}, Src: srcFS, Dest: dest, TeardownWhenStuck: true, Timeout: 90 * time.Second})
+	// the source view of this run: what is on the disk once the entry is gone
+	view, err := tree.Snapshot(sd, tree.SnapOpt{})
+	if err != nil {
+		r.Inconclusive = "snapshot source: " + err.Error()
+		return r
+	}
+	if vf.removed != "" {
+		r.Count("entries_vanished_mid_walk", 1)
+		if e := src.Get(vf.removed); e != nil {
+			r.AddSet("vanished_entry_types", string(e.Type))
+		}
+	}
+	c04Judge(c, r, plan, res, src, view, dest, vf.removed != "")
+	return r
+}
+
+// c04Judge applies the oracles (a)-(e) to one fault run. view is the source
+// view of the faulted run when it is not src itself.
+func c04Judge(c *core.Ctx, r *core.Result, plan faultPlan, res *syncRes, src, view *tree.Tree, dest string, fired bool) {
+	if view == nil {
+		view = src
+	}
 	desc := plan.String()
 	r.Count("fault_runs", 1)
 	if !fired {
@@ -420,7 +496,7 @@ func c04Judge(c *core.Ctx, r *core.Result, plan faultPlan, res *syncRes, src *tr
 	if res.RecvErr == nil {
 		r.Count("receive_returned_nil", 1)
 		created := map[string]bool{}
-		exp := src.Clone()
+		exp := view.Clone()
 		m := syncMask(created)
 		m.Xattrs = false // prior entries with equal identity legitimately keep theirs
 		if diffs := tree.Diff(exp, got, m); len(diffs) > 0 {
@@ -717,7 +793,7 @@ func c04Backlog(c *core.Ctx, r *core.Result, plan faultPlan) *core.Result {
 	if nstat >= 259 && fired.Load() {
 		r.Count("backlog_runs_with_full_receiver_queues", 1)
 	}
-	c04Judge(c, r, plan, res, src, dest, fired.Load())
+	c04Judge(c, r, plan, res, src, nil, dest, fired.Load())
 	return r
 }
 
@@ -805,7 +881,7 @@ func c04Fanout(c *core.Ctx, r *core.Result, plan faultPlan) *core.Result {
 			}
 		}
 	}
-	c04Judge(c, r, plan, res, src, dest, fired.Load())
+	c04Judge(c, r, plan, res, src, nil, dest, fired.Load())
 	return r
 }
 
